@@ -386,6 +386,13 @@ DoCompact(ev) ==
 DoCrash(ev) == CrashImage(ev.f, ev.f2, ev.upto, ev.len) /\ Report(<<>>)
 DoDropFile(ev) == DropFile(ev.f) /\ Report(<<>>)
 
+\* the repository's own inspection tool run on a read-only copy of the image
+DoViewTool(ev) ==
+  Stay /\ Report(Chk(~ev.changed, "C09:view-tool-modified-the-file", FALSE, TRUE)
+                 \o Chk(ev.rc = 0, "C09:view-tool-failed-on-read-only-file", 0, ev.rc)
+                 \o Chk({ev.names[i] : i \in DOMAIN ev.names} = DOMAIN DurableView(ev.f), "C09:view-tool-names",
+                        DOMAIN DurableView(ev.f), ev.names))
+
 DoObs(ev) == Stay /\ Report(ObsChk(ev))
 DoDecode(ev) == Stay /\ Report(DecodeChk(ev))
 
@@ -437,6 +444,7 @@ Step ==
        [] ev.e = "Crash" -> DoCrash(ev)
        [] ev.e = "DropFile" -> DoDropFile(ev)
        [] ev.e = "Obs" -> DoObs(ev)
+       [] ev.e = "ViewTool" -> DoViewTool(ev)
        [] ev.e = "Decode" -> DoDecode(ev)
        [] ev.e = "Panic" -> DoPanic(ev)
        [] ev.e = "Refs" -> DoRefs(ev)
